@@ -20,3 +20,13 @@ var VerifGetStrip = getStrip
 type VerifFilterRuleList = filterRuleList
 
 func VerifMatches(l *filterRuleList, name string, isDir bool) bool { return l.matches(name, isDir) }
+
+// VerifListNames returns the wire names of the entries the sender keeps for a file list it has sent,
+// in the sender's own order (index i of a later request means entry i of this list).
+func VerifListNames(fl *fileList) []string {
+	var out []string
+	for _, f := range fl.Files {
+		out = append(out, f.Wpath)
+	}
+	return out
+}
